@@ -241,6 +241,13 @@ theorem evalRV_spec (s : St) (r : RV) :
     | some v =>
       simp only [Option.map_some]
       exact ⟨trivial, trivial, Nat.le_refl _, fun i hi => Or.inl (read_inner s p v h i hi)⟩
+  | call p =>
+    simp only [evalRV, Spec.Val.evalRV, abs_read]
+    cases h : readPlace s p with
+    | none => simp
+    | some v =>
+      simp only [Option.map_some]
+      exact ⟨trivial, trivial, Nat.le_refl _, fun i hi => Or.inl (read_inner s p v h i hi)⟩
   | lit l =>
     have := alloc_spec s l s.next
     simp only [evalRV, Spec.Val.evalRV]
